@@ -120,6 +120,8 @@ def below_of(I, W, facts=None, view=None):
 # =============================================================================== call-site contracts
 class WalkAssumed(Contract):
     """TrackAnnotator._handle_update_track_ids - contract used at call sites (DESIGN 5.3).
+    The attribute part (tid', lid', frame) is PROVED of the real body in contracts/walk.py; the lookup part
+    (B1 re-established, maxima raised) is the bounded stand-in native/walk_bounded.py.
 
     requires  (P1) below start, an edge between two nodes carrying the old id leaves a non-dividing node
               (P2) below start, the old id does not reappear under a node with another id
